@@ -108,6 +108,17 @@ def rnd():
     return random.random() + float(numpy.random.random()) + random.gauss(0, 1e-9)
 
 
+def rej_if(cond):
+    """A requirement helper that *rejects the sample by raising* (as an undefined vector field or an empty
+    range would) when cond holds; otherwise True."""
+    if cond:
+        from scenic.core.distributions import RejectionException
+
+        raise RejectionException("scripted rejection raised inside a requirement")
+    return True
+
+
+_mod.rej_if = rej_if
 _mod.rnd = rnd
 _mod.now = now
 _mod.Boom = Boom
